@@ -206,15 +206,19 @@ func (s *Session) handlerOp(r *rpcState, a *actor, st Step) {
 		default:
 			err = grpc.SendHeader(r.hctx, md)
 		}
+		// the application goes on using ITS map (say, to build the trailers): what it set stays what it was
+		mutate(md)
 		s.opRet(a, st, errFields(tr.E{}, err))
 	case "settrl":
 		s.opStart(a, st, tr.E{"md": wire.MD(toMD(st.MD))})
 		var err error
+		tmd := toMD(st.MD)
 		if r.hss != nil {
-			r.hss.SetTrailer(toMD(st.MD))
+			r.hss.SetTrailer(tmd)
 		} else {
-			err = grpc.SetTrailer(r.hctx, toMD(st.MD))
+			err = grpc.SetTrailer(r.hctx, tmd)
 		}
+		mutate(tmd)
 		s.opRet(a, st, errFields(tr.E{}, err))
 	case "ctxwait":
 		s.opStart(a, st, nil)
